@@ -55,7 +55,7 @@ def run(tier, replay=None):
         texts = [json.load(open(replay))["witness"]["text"]]
     for t in texts:
         hc.append({"id": len(hc) + 1, "mode": "observe", "text": t, "want": ["cfg", "yaml"]})
-    tp, evs = run_harness(rvh, hc, wd, "dump")
+    tp, evs = run_harness_par(rvh, hc, wd, "dump")
     trace = []
     bydump = {}
     for e in evs:
